@@ -82,7 +82,9 @@ def sym_int(x=0, base=None):
             raise EngineUnsupported("int() of hex text with base %r" % (base,))
         if len(x.b) == 0:
             raise ValueError("invalid literal for int() with base 16: ''")
-        return SymInt(x.b.value())
+        r = SymInt(z3.simplify(x.b.value()))
+        from .core import Flags
+        return Flags.int_lift(r) if Flags.int_lift is not None else r
     if isinstance(x, OddHex):
         raise EngineUnsupported("int() of odd hex")
     return _real_int(x) if base is None else _real_int(x, base)
